@@ -1201,4 +1201,89 @@ theorem pool_size_bound (inp : PostIn) (hb : ∀ b ∈ inp.t, b < 256) : (v2tail
     simp only [List.length_map, List.length_take] at this
     omega
 
+
+/-! ## request hypotheses and the shape of successful runs (used by Props/C17Post.lean) -/
+
+/-- What `Plan::new` guarantees about the request a `post` version 2.0 table is rebuilt for (see
+`C17.glyph_map_monotone_bijection`: new ids pairwise distinct, old ids pairwise distinct, every new id below
+`num_output_glyphs`; `plan.glyphset.last()` bounds every kept glyph and is `None` only for an empty glyph set),
+plus: GLYPH_NAMES requested, the table says version 2.0, its bytes are bytes, fewer than 65536 output glyphs. -/
+structure PostReq (inp : PostIn) : Prop where
+  flag : hasFlag inp.flags F_GLYPH_NAMES = true
+  ver : u32At inp.t 0 = 0x00020000
+  bytes : ∀ b ∈ inp.t, b < 256
+  plan : PlanOk inp.n2o inp.nout
+  nout : inp.nout < 65536
+  maxSome : ∀ m, inp.maxOld = some m → ∀ no ∈ inp.n2o, no.2 ≤ m
+  maxNone : inp.maxOld = none → inp.n2o = []
+
+/-- the shape of a successful version 2.0 rebuild -/
+theorem subsetPost_v2_ok (inp : PostIn) (out : Bytes) (hr : PostReq inp) (h : subsetPost inp = .ok out) :
+    postReadable inp.t = true ∧ out = v2bytes (inp.t.take 32) inp.nout (v2tail inp) := by
+  unfold subsetPost at h
+  by_cases hrd : postReadable inp.t = true
+  · simp only [hrd, Bool.not_true, Bool.false_eq_true, if_false, hr.flag, hr.ver, and_self, if_true] at h
+    split at h
+    · cases h
+    split at h
+    · cases h
+    split at h
+    · cases h
+    · simp only [Except.ok.injEq] at h
+      exact ⟨hrd, h.symm⟩
+  · simp [hrd] at h
+
+/-- the source table of a successful rebuild has its 34 header bytes -/
+theorem readable_v2_length (t : Bytes) (hb : ∀ b ∈ t, b < 256) (hv : u32At t 0 = 0x00020000)
+    (hr : postReadable t = true) : 34 + 2 * postNumGlyphs t ≤ t.length := by
+  have := (version_bytes t hb hv).1
+  unfold postReadable hasV2Fields at hr
+  simp only [this, beq_self_eq_true, if_true, decide_eq_true_eq] at hr
+  exact hr
+
+/-- what the reader sees in the rebuilt table -/
+theorem out_reader (inp : PostIn) (out : Bytes) (hr : PostReq inp) (h : subsetPost inp = .ok out) :
+    postReadable out = true ∧ u32At out 0 = 0x00020000 ∧ postNumGlyphs out = inp.nout ∧
+    (∀ i, i < inp.nout → u16At out (34 + 2 * i) = (v2tail inp).arr.getD i 0 % 65536) ∧
+    stringData out = (v2tail inp).strs.flatMap pstrEnc := by
+  obtain ⟨hrd, hout⟩ := subsetPost_v2_ok inp out hr h
+  have hlen := readable_v2_length inp.t hr.bytes hr.ver hrd
+  have hh : (inp.t.take 32).length = 32 := by simp; omega
+  obtain ⟨l1, l2, l3, l4, l5⟩ := v2bytes_layout (inp.t.take 32) inp.nout (v2tail inp) hh hr.nout (v2tail_arr_length inp)
+  obtain ⟨v0, v2⟩ := version_bytes inp.t hr.bytes hr.ver
+  have h0 : u16At out 0 = 2 := by rw [hout, l1 0 (by omega), u16At_take _ _ _ (by omega)]; exact v0
+  have h2 : u16At out 2 = 0 := by rw [hout, l1 2 (by omega), u16At_take _ _ _ (by omega)]; exact v2
+  have hng : postNumGlyphs out = inp.nout := by unfold postNumGlyphs; rw [hout]; exact l2
+  refine ⟨?_, ?_, hng, ?_, ?_⟩
+  · unfold postReadable hasV2Fields
+    simp only [h0, beq_self_eq_true, if_true, decide_eq_true_eq, hng]
+    rw [hout, l5]; omega
+  · rw [u32At_eq, h0, h2]
+  · intro i hi; rw [hout]; exact l3 i hi
+  · unfold stringData; rw [hng, hout]; exact l4
+
+
+theorem glyphName_other_version (t : Bytes) (gid : Nat) (h1 : u32At t 0 ≠ 0x00010000) (h2 : u32At t 0 ≠ 0x00020000) :
+    glyphName t gid = none := by
+  unfold glyphName
+  split
+  · rfl
+  · simp only [h1, h2, if_false]
+
+
+theorem subsetVorg_ok (n2o : List (Nat × Nat)) (srcGlyphs nout : Nat) (t out : Bytes)
+    (h : subsetVorg n2o srcGlyphs nout t = .ok out) :
+    vorgReadable t = true ∧
+    out = t.take 6 ++ be16 ((vorgKept (oldToNew n2o) (vorgRecords t)).length % 65536) ++
+      (vorgKept (oldToNew n2o) (vorgRecords t)).flatMap enc4 := by
+  unfold subsetVorg at h
+  by_cases hr : vorgReadable t = true
+  · simp only [hr, Bool.not_true, Bool.false_eq_true, if_false] at h
+    split at h
+    · cases h
+    · simp only [Except.ok.injEq] at h
+      exact ⟨hr, h.symm⟩
+  · simp [hr] at h
+
+
 end FontVerif.SubsetPost
